@@ -94,7 +94,8 @@ def cases(tier, seed):
                     rel = (rng.choice(later),
                            rng.choice(['setUp', 'body', 'tearDown']))
                 ths.append({'api': rng.choice(['threading', '_thread',
-                                               '_thread_touch']),
+                                               '_thread_touch', 'timer']),
+                            'daemon': rng.random() < 0.6,
                             'name': rng.choice(['default', 'named',
                                                 'ignored', 'midign']),
                             'rel': rel})
@@ -142,7 +143,8 @@ def run_case(case):
                 name = 'wrk-ign-%d-%d' % (i, k)
             keys[key] = dict(th, test=i, tname=name)
             starts[i].append({'ph': 'body', 'do': 'thread', 'key': key,
-                              'api': th['api'], 'name': name})
+                              'api': th['api'], 'name': name,
+                              'daemon': th.get('daemon', True)})
             rel = tuple(th['rel'])
             if rel[0] == 'same':
                 acts[i].append(('tearDown', {'ph': 'tearDown',
@@ -250,6 +252,9 @@ def run_case(case):
         C('leaks_expected', len(want))
         C('dummy_threads', sum(1 for k in want
                                if keys[k]['api'].startswith('_thread')))
+        C('timer_leaks', sum(1 for k in want if keys[k]['api'] == 'timer'))
+        C('nondaemon_leaks', sum(1 for k in want
+                                 if keys[k].get('daemon') is False))
         C('touch_threads_gone', sum(
             1 for k, rec in started.items()
             if keys[k]['api'] == '_thread_touch' and k not in alive
